@@ -15,11 +15,11 @@
    MovegenComplete; the Black frame by mirror symmetry of the rules (RulesMirror, SetTurn).
    The statement `movegen_exact_statement` below (over the executable domain test in_D, as a Permutation of lists) differs from the
    proved theorem only in (a) using in_D instead of the invariant (that in_D implies inv_b and ep_ok_b is evaluated, not proved) and
-   (b) needing NoDup of the SPECIFICATION's list for the Permutation form (C01_movegen_exact_as_permutation takes it as a premise).
+   (b) nothing else: the Permutation form is C01_movegen_exact_as_permutation (the rules list no move twice: PerftRules.legal_nodup).
    The tie of the model to the Rust generator is the correspondence run against the executable specification. *)
 From Coq Require Import NArith ZArith List Bool Permutation String.
 From Rawr Require Import Consts Bits Magic Position MoveGen MakeMove MakeStages Fen Uci Rules Abs MagicFacts ShiftFacts AbsFacts MakeFacts GenSane GenNoDup NoKingCapture
-                         Closure EpRetro LegalKing LegalCastle LegalEp LegalBlocks GenLegal MovegenSound ConvKing MovegenComplete.
+                         Closure EpRetro LegalKing LegalCastle LegalEp LegalBlocks GenLegal MovegenSound ConvKing MovegenComplete PerftRules.
 Import ListNotations.
 Local Open Scope N_scope.
 
@@ -128,11 +128,18 @@ Proof. exact movegen_complete. Qed.
 Theorem C01_movegen_exact : forall p, Inv0 p -> ep_ok_b p = true ->
   (forall m, In m (legal_moves p) <-> In m (spec_legal p)) /\ NoDup (legal_moves p).
 Proof. exact movegen_exact. Qed.
-Theorem C01_movegen_exact_as_permutation : forall p, Inv0 p -> ep_ok_b p = true -> NoDup (spec_legal p) ->
+Theorem C01_movegen_exact_as_permutation : forall p, Inv0 p -> ep_ok_b p = true ->
   Permutation (legal_moves p) (spec_legal p) /\ NoDup (legal_moves p).
 Proof.
-  intros p I He Hs. destruct (movegen_exact p I He) as (Hiff & Hnd). split; [|exact Hnd].
-  apply NoDup_Permutation; [exact Hnd|exact Hs|exact Hiff].
+  intros p I He. destruct (movegen_exact p I He) as (Hiff & Hnd). split; [|exact Hnd].
+  apply NoDup_Permutation; [exact Hnd| |exact Hiff].
+  (* the specification lists no move twice, and the encoding is injective on it *)
+  pose proof (decoded_moves_perm p I He (legal_nodup (abs_state p))) as Hp.
+  assert (Hmap : Permutation (map (enc p) (map (dec p) (legal_moves p))) (spec_legal p)) by (unfold spec_legal; apply Permutation_map; exact Hp).
+  apply (Permutation_NoDup Hmap). rewrite map_map.
+  assert (E : map (fun x => enc p (dec p x)) (legal_moves p) = legal_moves p).
+  { rewrite <- (map_id (legal_moves p)) at 2. apply map_ext_in. intros m Hm. exact (LegalBridge.enc_dec_generated p m (i0_good p I) (i0_cg p I) Hm). }
+  rewrite E. exact Hnd.
 Qed.
 Theorem C01_executable_premises_sound : forall p, inv_b p = true -> Inv0 p.
 Proof. intros p H. exact (Inv_Inv0 p (inv_b_sound p H)). Qed.
